@@ -19,3 +19,6 @@ pub fn verif_vec_extend_repeat(v: &mut Vec<u8>, z: u8, n: usize)
 {
     v.extend(core::iter::repeat(z).take(n))
 }
+
+pub assume_specification<T, E> [Option::<Result<T, E>>::transpose] (o: Option<Result<T, E>>) -> (r: Result<Option<T>, E>)
+    ensures r == (match o { Some(Ok(x)) => Ok::<Option<T>, E>(Some(x)), Some(Err(e)) => Err::<Option<T>, E>(e), None => Ok::<Option<T>, E>(None) });
